@@ -148,15 +148,36 @@ func (e *PipeEnd) readNonblock(buf []byte) ([]byte, error) {
 	if p.reset {
 		return nil, io.EOF // netpoll maps every read error except EAGAIN to EOF
 	}
-	if len(*e.inq()) == 0 {
-		if p.closed[1-e.side] || p.dead {
-			return nil, io.EOF
+	// socket.Messages keeps a user-space buffer: one read(2) takes whatever the kernel has (up to 64 KB), the
+	// frames are handed out one per call; the poller only knows about what is still in the kernel
+	if len(e.ubuf) == 0 {
+		if len(*e.inq()) == 0 {
+			if p.closed[1-e.side] || p.dead {
+				return nil, io.EOF
+			}
+			return nil, syscall.EAGAIN
 		}
-		return nil, syscall.EAGAIN
+		q := e.inq()
+		total := 0
+		for len(*q) > 0 && (total == 0 || total+len((*q)[0]) <= 65536) {
+			total += len((*q)[0])
+			e.ubuf = append(e.ubuf, (*q)[0])
+			*q = (*q)[1:]
+		}
 	}
-	return e.take(buf)
+	m := e.ubuf[0]
+	e.ubuf = e.ubuf[1:]
+	var out []byte
+	if cap(buf) >= len(m) {
+		out = buf[:len(m)]
+	} else {
+		out = make([]byte, len(m))
+	}
+	copy(out, m)
+	return out, nil
 }
 
+// readable: what epoll reports - bytes in the kernel, or an end of the connection
 func (e *PipeEnd) readable() bool {
 	p := e.p
 	return len(*e.inq()) > 0 || p.closed[e.side] || p.closed[1-e.side] || p.dead || p.reset
